@@ -94,6 +94,10 @@ def gen_lease_responder(seed, opts=None):
         n = _pick(rng, [(1, 0), (3, rng.randint(1, 100)), (1, 0x7FFFFFFF)])
         items.append({'at': t * MS, 'n': n, 'ttl_us': ttl_ms * 1000})
         t += rng.randint(1, 400)
+    rng2 = random.Random(seed ^ 0x9EAD)  # separate stream: the plans stay what they were
+    for it in items:
+        if rng2.random() < 0.3:
+            it['precreate'] = True  # the lease object is built when the publisher is subscribed and published at 'at'
     plan = {'exec': 'peer', 'profile': 'lease-resp', 'seed': seed, 'role': 'server', 'framing': _pick(rng, [(3, 'tcp'), (1, 'ws')]),
             'loop': {'eps': 0.0},
             'endpoint': {'lease_script': items},
